@@ -259,6 +259,11 @@ func.func @f(%a: memref<{n}xi64>, %b: memref<{n}xi64>, %c: memref<{n}xi64>) {{
   func.return
 }}
 """
+    if kind == "alu2d":
+        # element-wise add on a 2-D buffer (unit dimensions at either position)
+        r, c = shape
+        t = f"memref<{r}x{c}xi64>"
+        return dart_operation_src("alu", (16,)).replace("affine_map<(d0) -> (d0)>", "affine_map<(d0, d1) -> (d0, d1)>").replace("memref<16xi64>", t)
     if kind == "alu_b":
         # second input read through an arbitrary access map (fixed row of a 2-D buffer, offsets, non-linear indices)
         n, pat, tb = shape
@@ -353,6 +358,13 @@ def run(chk):
         cases.append(("alu_b", (n, "d0 floordiv 2", f"memref<{n // 2}xi64>")))
         cases.append(("alu_b", (n, "(d0 floordiv 4) * 4 + d0 mod 4", f"memref<{n}xi64>")))
         cases.append(("alu_b", (n, "d0 mod 8", "memref<8xi64>")))
+        cases.append(("alu_b", (n, "d0 ceildiv 2", f"memref<{n // 2 + 1}xi64>")))
+        cases.append(("alu_b", (n, "(d0 ceildiv 4) * 2 + 1", f"memref<{n}xi64>")))
+    # operations that differ only in WHERE their unit dimension sits, one after the other in one module
+    cases.append(("multi", (("alu2d", (1, 16)), ("alu2d", (16, 1)), ("alu2d", (1, 16)))))
+    cases.append(("multi", (("alu2d", (16, 1)), ("alu2d", (1, 16)), ("alu2d", (4, 4)), ("alu2d", (16, 1)))))
+    for rc in ((1, 16), (16, 1), (4, 8), (1, 1)):
+        cases.append(("alu2d", rc))
     cases.append(("gemmx_a", (16, 16, 16, "2, d0, d2", "memref<4x16x16xi8>")))
     cases.append(("gemmx_a", (16, 16, 16, "d0, d2, 1", "memref<16x16x2xi8>")))
     cases.append(("gemmx_a", (16, 16, 16, "d0 + 1, d2", "memref<17x16xi8>")))
